@@ -81,7 +81,8 @@ Exp(cfg, S, e) ==
                                    IF m[e.ks[x]] # 0 /\ FirstOcc(e.ks, x) THEN m[e.ks[x]] ELSE e.d]]
     [] e.op = "setdefault" -> IF m[e.k] # 0 THEN [same EXCEPT !.ri = m[e.k]]
                               ELSE [put([m EXCEPT ![e.k] = e.v]) EXCEPT !.ri = e.v]
-    [] e.op \in {"update", "updatekw"} -> put([m EXCEPT ![e.k] = e.v, ![e.k2] = e.v2])
+    [] e.op \in {"update", "updatekw", "updatekwonly", "updateitems"} -> put([m EXCEPT ![e.k] = e.v, ![e.k2] = e.v2])
+    [] e.op = "update0" -> same          \* d.update() with no argument at all
     \* update({k: v, k2: <a value the encoding cannot store>}): all or nothing
     [] e.op = "updatebad" -> IF e.exc = "none" THEN put([m EXCEPT ![e.k] = e.v, ![e.k2] = BAD]) ELSE [same EXCEPT !.exc = "error"]
     [] e.op = "clear"    -> put(EmptyMap(nk))
@@ -93,7 +94,7 @@ Exp(cfg, S, e) ==
 Failed(props, cfg, S, e) ==
   LET x == Exp(cfg, S, e)
       mutating == e.op \in {"set", "setbad", "del", "pop", "popd", "popitem", "popkeys", "popkeysd", "setdefault",
-                            "update", "updatekw", "updatebad", "clear"}
+                            "update", "updatekw", "updatekwonly", "updateitems", "update0", "updatebad", "clear"}
       others == {l \in 1..Len(S.c) : l # e.loc /\ ~(e.op = "copy" /\ l = e.o)}
   IN   Chk(props, "C03", "C03.Raises", (x.exc = "none") = (e.exc = "none"))
   \cup Chk(props, "C03", "C03.KeyErrorExactly", (x.exc = "KeyError") = (e.exc = "KeyError"))
